@@ -36,6 +36,47 @@ mut("C02", "event_trigger_undecryptable", SS+"newblock.go", '''		if !decryptable
 mut("C02", "fired_grouped_by_wrong_eon", SS+"newblock.go", "firedTriggersByEon[firedTrigger.Eon] = append(firedTriggersByEon[firedTrigger.Eon], firedTrigger)", "firedTriggersByEon[firedTrigger.Eon&0xff] = append(firedTriggersByEon[firedTrigger.Eon&0xff], firedTrigger)")
 mut("C02", "fired_row_wrong_block", SS+"triggerprocessor.go", "BlockNumber:    int64(event.Log.BlockNumber),", "BlockNumber:    event.EventTriggerRegisteredEvent.BlockNumber,")
 
+SE = "rolling-shutter/keyper/shutterevents/"
+# ---- C14 ----
+mut("C14", "batchconfig_index_from_threshold", SE+"events.go", '''				Key:   "ConfigIndex",
+				Value: fmt.Sprintf("%d", bc.KeyperConfigIndex),''', '''				Key:   "ConfigIndex",
+				Value: fmt.Sprintf("%d", bc.Threshold),''')
+mut("C14", "eonstarted_swapped_reads", SE+"events.go", '''	eon, err := decodeUint64(ev.Attributes[0].Value)
+	if err != nil {
+		return nil, err
+	}
+	activationBlockNumber, err := decodeUint64(ev.Attributes[1].Value)''', '''	eon, err := decodeUint64(ev.Attributes[1].Value)
+	if err != nil {
+		return nil, err
+	}
+	activationBlockNumber, err := decodeUint64(ev.Attributes[0].Value)''')
+mut("C14", "uint_parsed_base16", SE+"marshal.go", "v, err := strconv.ParseUint(val, 10, 64)", "v, err := strconv.ParseUint(val, 16, 64)")
+mut("C14", "addresses_joined_with_semicolon", SE+"marshal.go", '''		hexstrings = append(hexstrings, a.Hex())
+	}
+	return strings.Join(hexstrings, ",")''', '''		hexstrings = append(hexstrings, a.Hex())
+	}
+	return strings.Join(hexstrings, ";")''')
+mut("C14", "expect_attributes_off_by_one", SE+"events.go", "if len(ev.Attributes) < len(names) {", "if len(ev.Attributes) < len(names)-1 {")
+mut("C14", "polyeval_key_renamed_on_one_side", SE+"events.go", '''err := expectAttributes(ev, "Sender", "Eon", "Receivers", "EncryptedEvals")''', '''err := expectAttributes(ev, "Sender", "Eon", "Receivers", "Evals")''')
+mut("C14", "apology_height_dropped", SE+"events.go", '''	return &Apology{
+		Height:   height,''', '''	return &Apology{
+		Height:   0,''')
+mut("C14", "accusation_dispatched_to_apology", SE+"events.go", '''	case evtype.Accusation:
+		return makeAccusation(ev, height)''', '''	case evtype.Accusation:
+		return makeApology(ev, height)''')
+mut("C14", "first_byte_sequence_dropped", SE+"marshal.go", '''		bs, err := hexutil.Decode(v)
+		if err != nil {
+			return [][]byte{}, err
+		}
+		res = append(res, bs)''', '''		bs, err := hexutil.Decode(v)
+		if err != nil {
+			return [][]byte{}, err
+		}
+		if len(bs) > 0 {
+			res = append(res, bs)
+		}''')
+mut("C14", "checkin_key_std_base64", SE+"marshal.go", "data, err := base64.RawURLEncoding.DecodeString(val)", "data, err := base64.RawStdEncoding.DecodeString(val)")
+
 def main():
     n = 0
     for prop, name, file, old, new in M:
